@@ -73,8 +73,8 @@ ALL = dict(frames=None, events=None, enc=True, st=ST_ALL, res=True)
 PROJ = {
     'C01': ALL, 'C02': dict(frames=None, events=[], enc=True, st=[2, 8], res=True),
     'C03': dict(frames=['DATA'], events=['WindowUpdated', 'StreamReset'], enc=False, st=[2, 5], res=True),
-    'C04': dict(frames=['WINDOW_UPDATE', 'GOAWAY', 'RST_STREAM'], events=['DataReceived', 'SettingsAcknowledged'], enc=False, st=[2, 6, 7], res=True),
-    'C05': dict(frames=['WINDOW_UPDATE', 'RST_STREAM'], events=['DataReceived', 'SettingsAcknowledged'], enc=False, st=[2, 6, 7], res=True),
+    'C04': dict(frames=['WINDOW_UPDATE', 'GOAWAY', 'RST_STREAM'], events=['DataReceived', 'SettingsAcknowledged'], enc=False, st=[2, 6, 7, 12], res=True),
+    'C05': dict(frames=['WINDOW_UPDATE', 'RST_STREAM'], events=['DataReceived', 'SettingsAcknowledged'], enc=False, st=[2, 6, 7, 12], res=True),
     'C06': dict(frames=['RST_STREAM', 'GOAWAY'], events='kinds', enc=False, st=[0, 2, 3, 4], res=True),
     'C07': dict(frames=[], events=None, enc=False, st=[2], res=True),
     'C08': dict(frames='types', events=[], enc=False, st=[2, 4], res=True),
@@ -89,7 +89,7 @@ PROJ = {
     'C17': dict(frames=[], events=[], enc=False, st=[2], res='kind'),
     'C18': dict(frames=['GOAWAY'], events=[], enc=False, st=[2, 3], res=True),
     'C19': dict(frames='types', events=['ConnectionTerminated'], enc=False, st=[2], res=True),
-    'C20': dict(frames=['RST_STREAM', 'GOAWAY', 'WINDOW_UPDATE'], events=None, enc=False, st=[0, 2, 6], res=True),
+    'C20': dict(frames=['RST_STREAM', 'GOAWAY', 'WINDOW_UPDATE'], events=None, enc=False, st=[0, 2, 6, 12], res=True),
     'C21': ALL,
     'C22': dict(frames=['PUSH_PROMISE', 'CONTINUATION', 'RST_STREAM', 'GOAWAY'], events=['PushedStreamReceived', 'ResponseReceived', 'RequestReceived'], enc=False, st=[0, 2, 3, 4], res=True),
     'C23': dict(frames=['PRIORITY', 'HEADERS'], events=['PriorityUpdated', 'RequestReceived'], enc=False, st=[0, 2, 5, 6], res=True),
@@ -102,10 +102,11 @@ PROJ = {
 }
 
 # per-stream peek sub-fields compared (0 sid, 1 state, 2 closed_by, 3 out_win, 4 in_win, 5 in_max, 6 flags,
-# 7 expected content length, 8 actual content length); None = all, [] = none
+# 7 expected content length, 8 actual content length, 9 bytes the application has
+# acknowledged that were not yet handed back); None = all, [] = none
 SS = {
     'C01': None, 'C21': None, 'C25': None, 'C28': None,
-    'C03': [0, 1, 3], 'C04': [0, 1, 4, 5], 'C05': [0, 1, 4, 5], 'C06': [0, 1, 2, 6], 'C07': [0, 1, 6], 'C08': [0, 1, 6],
+    'C03': [0, 1, 3], 'C04': [0, 1, 4, 5, 9], 'C05': [0, 1, 4, 5, 9], 'C06': [0, 1, 2, 6], 'C07': [0, 1, 6], 'C08': [0, 1, 6],
     'C09': [0, 1], 'C10': [0, 1], 'C11': [0, 3, 4, 5], 'C12': [0, 3], 'C16': [0, 1, 7, 8], 'C19': [0, 1], 'C20': [0, 1, 2],
     'C22': [0, 1, 6], 'C23': [0, 1, 3, 4], 'C24': [0, 1, 6], 'C27': [0], 'C29': [],
 }
